@@ -310,7 +310,7 @@ void gen_c06(Plan& p, bool thorough) {
   int prim = primary_param(p.run);
   p.tasks.resize(1);
   static const std::vector<std::string> caps = {"0",        "1",      "hdr-1",   "hdr",     "needed-1", "needed",  "needed+1", "max-1",   "max",
-                                                "max+1",    "frac250", "frac500", "frac900", "frac999",  "needed-8", "hdr+1",    "needed+64", "max+4096"};
+                                                "max+1",    "frac250", "frac500", "frac900", "frac999",  "needed-8", "hdr+1",    "needed+64", "max+4096", "sizemax"};
   Case km = keymsg_case(r, prim);
   int n = thorough ? 14 : 8;
   for (int i = 0; i < n; i++) {
